@@ -162,10 +162,30 @@ def close(x, y, scale):
     return abs(x - y) <= F(1, 10 ** 12) * max(abs(x), abs(y), scale)
 
 
-def check_one(acc, op, ka, ua, va, kb, ub, vb):
-    case = {'kind': 'op', 'op': op, 'a': [ka, va, ua], 'b': [kb, vb, ub]}
-    pair = f'{ka}{op}{kb}'
-    a, b = make(ka, va, ua), make(kb, vb, ub)
+def make_preconverted(kind, value, unit):
+    """The same quantity, but built in another unit and converted in place (a history on the operand)."""
+    if kind in ('int', 'float'):
+        return make(kind, value, unit)
+    units = si.UNITS[kind]
+    u0 = units[(units.index(unit) + 1) % len(units)]
+    q = getattr(gu, kind)(si.convert(value, kind, unit, u0), u0)
+    q.to(unit, inplace=True)
+    return q
+
+
+def check_one(acc, op, ka, ua, va, kb, ub, vb, pre=False):
+    case = {'kind': 'op', 'op': op, 'a': [ka, va, ua], 'b': [kb, vb, ub], 'pre': pre}
+    pair = f'{ka}{op}{kb}' + ('/operands-converted-in-place' if pre else '')
+    if pre:
+        try:
+            a, b = make_preconverted(ka, va, ua), make_preconverted(kb, vb, ub)
+        except ValueError:
+            return None
+        # the in-place conversion rounds: use the operands' actual values as the reference inputs
+        va = a.value if hasattr(a, 'unit') else va
+        vb = b.value if hasattr(b, 'unit') else vb
+    else:
+        a, b = make(ka, va, ua), make(kb, vb, ub)
     ma, mb = mag(ka, va, ua), mag(kb, vb, ub)
     acc.transitions += 1
     status, r = apply(op, a, b)
@@ -284,6 +304,9 @@ def run_shard(shard, tier):
                 for vb in vb_list:
                     for op in OPS:
                         check_one(acc, op, ka, ua, va, kb, ub, vb)
+                    if (va == va_list[0] or vb == vb_list[0]) and not (ka in ('int', 'float') and kb in ('int', 'float')):
+                        for op in OPS:
+                            check_one(acc, op, ka, ua, va, kb, ub, vb, pre=True)
                     if same_family:
                         check_laws(acc, ka, ua, va, kb, ub, vb)
                     acc.nstates += 1
@@ -300,7 +323,7 @@ def replay(case):
     acc = Acc()
     if case['kind'] == 'op':
         check_one(acc, case['op'], case['a'][0], case['a'][2], case['a'][1],
-                  case['b'][0], case['b'][2], case['b'][1])
+                  case['b'][0], case['b'][2], case['b'][1], pre=case.get('pre', False))
     elif case['kind'] == 'law':
         check_laws(acc, case['a'][0], case['a'][2], case['a'][1],
                    case['b'][0], case['b'][2], case['b'][1])
